@@ -45,9 +45,12 @@ def stateful_shard(kind, tier):
     I = 2
     for skind in ("delta", "deltaplus", "exp"):
         for bias in (False, True):
-            for graded in (False, True):
+            for graded, reassign in ((False, False), (True, False), (False, True)):
+                # reassign: after the first step the weight (and bias) are replaced through the public setters, the way an updater
+                # applies an update; every later output uses the new parameters
                 for hist in itertools.product(list(itertools.product((0, 1), repeat=I)), repeat=T):
-                    cfg = {"conn": kind, "synapse": skind, "bias": bias, "graded_float_input": graded, "history": [list(h) for h in hist]}
+                    cfg = {"conn": kind, "synapse": skind, "bias": bias, "graded_float_input": graded, "history": [list(h) for h in hist],
+                           "parameters_reassigned_after_step": 0 if reassign else None}
                     tally.add("evaluations")
                     try:
                         if kind == "dense":
@@ -75,6 +78,17 @@ def stateful_shard(kind, tier):
                     O = Wm.shape[0] if kind != "conv" else 1
                     bvec = (int_weights(O, off=100) if bias else torch.zeros(O)).to(torch.float64)
                     for t, bits in enumerate(hist):
+                        if reassign and t == 1:
+                            try:
+                                c.weight = c.weight.detach() * 2.0 + 1.0
+                                if bias:
+                                    c.bias = c.bias.detach() + 50.0
+                            except Exception as ex:
+                                tally.violation(f"exception:set-weight:{kind}:{type(ex).__name__}", {**cfg, "step": t}, repr(ex))
+                                break
+                            Wm = Wm * 2.0 + 1.0
+                            if bias:
+                                bvec = bvec + 50.0
                         x = torch.tensor([list(bits)], dtype=torch.float32) * 2.5 if graded else torch.tensor([list(bits)], dtype=torch.bool)
                         x = x.reshape(1, *inshape)
                         args = (x,) if skind != "deltaplus" else (x, torch.full((1, *inshape), 0.25 * (t + 1)))
@@ -99,11 +113,11 @@ def stateful_shard(kind, tier):
                                             f"{skind} synapse on the same inputs holds {cur.tolist()}", cur.tolist(), own.tolist())
                             break
                         if out.shape != exp.shape or not torch.allclose(out, exp, rtol=1e-6, atol=1e-6):
-                            tally.violation(f"stateful-map:{kind}:{skind}{':graded' if graded else ''}", {**cfg, "step": t}, f"step {t}: output {out.tolist()} but the "
+                            tally.violation(f"stateful-map:{kind}:{skind}{':graded' if graded else ''}{':reassigned' if reassign else ''}", {**cfg, "step": t}, f"step {t}: output {out.tolist()} but the "
                                             f"documented map of the synapse's current {cur.tolist()} gives {exp.tolist()}", exp.tolist(), out.tolist())
                             break
                     if any(any(b) for b in hist):
-                        tally.mark("nontrivial", ("stateful", kind, skind, bias, graded, hist))
+                        tally.mark("nontrivial", ("stateful", kind, skind, bias, graded, reassign, hist))
     tally.sample({"part": "stateful synapses / graded inputs", "conn": kind, "T": T})
     return tally
 
